@@ -281,7 +281,7 @@ def main():
                     samples.append(s)
         rule = ("libFuzzer (ASan, debug assertions) on target c06_ops: bytes decoded into <= 48 in-contract API calls on a pool of live objects "
                 "(encode / stripe / configure_wrap / score f32+u8 / max-argmax-threshold / scanner / sampler / clone / dense matrix / sample / conversions, "
-                "every backend and forced dispatcher arm; on DNA, protein, and - first byte >= 192 - alphabets of 9, 12 and 16 symbols declared by the caller through the public traits, sizes between the library's own 5 and 21); distinct = distinct op-class records over the final corpus; non-trivial = >= 3 ops with a SIMD kernel "
+                "every backend and forced dispatcher arm; every cell of every striped sequence made on the way must hold a symbol of the alphabet - the kernels index matrix rows with those bytes through gathers / permutes no sanitizer instruments; on DNA, protein, and - first byte >= 192 - alphabets of 9, 12 and 16 symbols declared by the caller through the public traits, sizes between the library's own 5 and 21); distinct = distinct op-class records over the final corpus; non-trivial = >= 3 ops with a SIMD kernel "
                 "run on an object that was resized or reused; every input of the final corpora is then replayed through a sanitizer-free build with a guard "
                 "allocator (pattern bytes around every heap block, verified on free), because the kernels' non-temporal stores are inline asm and their "
                 "out-of-bounds writes are invisible to AddressSanitizer")
